@@ -170,3 +170,238 @@ Example routing_example :
   route w (Meta 1 [] [] false) = [0; 1] /\ route w (Meta 3 [] [] true) = [0; 2] /\ route w (Meta 3 [] [] false) = [0]
   /\ route0 w = [0; 2].
 Proof. vm_compute. auto. Qed.
+
+(** ** Sink faults: the sinks that are ATTEMPTED do not depend on which attempts fail *)
+From Coq Require Import PeanoNat.
+Local Arguments blen : simpl never.
+Local Arguments skipn : simpl never.
+Local Arguments firstn : simpl never.
+
+Lemma spec_calls_app : forall leaf plan a b k,
+  spec_calls leaf plan k (a ++ b) =
+  spec_calls leaf plan k a ++
+  match spec_res leaf plan k a with WUnwind => [] | _ => spec_calls leaf plan (k + length a) b end.
+Proof.
+  intros leaf plan a. induction a as [|i a IH]; intros b k; simpl.
+  - rewrite Nat.add_0_r. reflexivity.
+  - replace (k + S (length a))%nat with (S k + length a)%nat by lia.
+    destruct (snd (leaf (plan k))); simpl; try reflexivity.
+    + rewrite IH. reflexivity.
+    + rewrite IH. destruct (spec_res leaf plan (S k) a); reflexivity.
+Qed.
+
+Lemma spec_res_app : forall leaf plan a b k,
+  spec_res leaf plan k (a ++ b) =
+  match spec_res leaf plan k a with
+  | WUnwind => WUnwind
+  | WErr => match spec_res leaf plan (k + length a) b with WUnwind => WUnwind | _ => WErr end
+  | WOk => spec_res leaf plan (k + length a) b
+  end.
+Proof.
+  intros leaf plan a. induction a as [|i a IH]; intros b k; simpl.
+  - rewrite Nat.add_0_r. reflexivity.
+  - replace (k + S (length a))%nat with (S k + length a)%nat by lia.
+    destruct (snd (leaf (plan k))); simpl; try reflexivity.
+    + apply IH.
+    + rewrite IH. destruct (spec_res leaf plan (S k) a); try reflexivity;
+        destruct (spec_res leaf plan _ b); reflexivity.
+Qed.
+
+(** The code's forwarding ([Tee] runs both sides) is the per-sink specification: every recording writer
+    of [targets x], in order, is given the method with ITS OWN script and nothing else; what it sees does
+    not depend on the other sinks' scripts (only a panic stops the walk). *)
+Theorem tee_apply_spec : forall leaf x plan k,
+  fst (fst (tee_apply true leaf x plan k)) = spec_calls leaf plan k (targets x)
+  /\ snd (fst (tee_apply true leaf x plan k)) = spec_res leaf plan k (targets x)
+  /\ (snd (fst (tee_apply true leaf x plan k)) <> WUnwind ->
+      snd (tee_apply true leaf x plan k) = (k + length (targets x))%nat).
+Proof.
+  intros leaf x. induction x; intros plan k; simpl.
+  - destruct (leaf (plan k)) as [c r]. simpl. repeat split; try (destruct r; reflexivity). intros _. lia.
+  - repeat split. intros _. lia.
+  - apply IHx.
+  - apply IHx.
+  - destruct (IHx1 plan k) as [C1 [R1 K1]].
+    destruct (tee_apply true leaf x1 plan k) as [[ca ra] k1]. simpl in C1, R1, K1.
+    rewrite spec_calls_app, spec_res_app, app_length. rewrite <- C1, <- R1.
+    destruct ra.
+    + specialize (K1 ltac:(discriminate)). subst k1.
+      destruct (IHx2 plan (k + length (targets x1))%nat) as [C2 [R2 K2]].
+      destruct (tee_apply true leaf x2 plan (k + length (targets x1))%nat) as [[cb rb] k2]. simpl in *.
+      repeat split; try congruence. intros H. rewrite (K2 H). lia.
+    + specialize (K1 ltac:(discriminate)). subst k1.
+      destruct (IHx2 plan (k + length (targets x1))%nat) as [C2 [R2 K2]].
+      destruct (tee_apply true leaf x2 plan (k + length (targets x1))%nat) as [[cb rb] k2]. simpl in *.
+      rewrite <- R2. repeat split; try congruence.
+      intros H. rewrite K2; [lia|]. intros E. rewrite E in H. apply H. reflexivity.
+    + simpl. rewrite app_nil_r. repeat split. intros H. contradiction.
+  - apply IHx.
+Qed.
+
+Lemma spec_no_unwind : forall leaf plan ts k,
+  spec_res leaf plan k ts <> WUnwind -> map fst (spec_calls leaf plan k ts) = ts.
+Proof.
+  intros leaf plan ts. induction ts as [|i r IH]; intros k H; simpl in *; [reflexivity|].
+  destruct (snd (leaf (plan k))); simpl.
+  - rewrite IH; [reflexivity | assumption].
+  - rewrite IH; [reflexivity|]. intros E. rewrite E in H. apply H. reflexivity.
+  - contradiction.
+Qed.
+
+Lemma spec_prefix : forall leaf plan ts k, exists rest, ts = map fst (spec_calls leaf plan k ts) ++ rest.
+Proof.
+  intros leaf plan ts. induction ts as [|i r IH]; intros k; simpl; [exists []; reflexivity|].
+  destruct (snd (leaf (plan k))); simpl.
+  - destruct (IH (S k)) as [rest E]. exists rest. congruence.
+  - destruct (IH (S k)) as [rest E]. exists rest. congruence.
+  - exists r. reflexivity.
+Qed.
+
+(** Headline of the fault extension.  For every writer expression, metadata, [io::Write] method and fault
+    plan: the recording sinks whose writer is called are exactly the sinks the documentation denotes, in
+    order — whichever of those calls fail — and each sees exactly what its own script makes of the
+    method.  (A panicking sink unwinds: then the sinks called are a prefix of the denotation.) *)
+Theorem routing_with_faults : forall w m leaf plan,
+  let run := tee_apply true leaf (fst (make_for w m)) plan 0%nat in
+  fst (fst run) = spec_calls leaf plan 0%nat (denote w m)
+  /\ snd (fst run) = spec_res leaf plan 0%nat (denote w m)
+  /\ (snd (fst run) <> WUnwind -> map fst (fst (fst run)) = denote w m)
+  /\ exists rest, denote w m = map fst (fst (fst run)) ++ rest.
+Proof.
+  intros w m leaf plan run. subst run.
+  destruct (tee_apply_spec leaf (fst (make_for w m)) plan 0%nat) as [C [R _]].
+  fold (route w m) in C, R. rewrite routing in C, R.
+  rewrite C, R. repeat split.
+  - apply spec_no_unwind.
+  - apply spec_prefix.
+Qed.
+
+Theorem routing0_with_faults : forall w leaf plan,
+  let run := tee_apply true leaf (fst (make0 w)) plan 0%nat in
+  fst (fst run) = spec_calls leaf plan 0%nat (denote0 w)
+  /\ snd (fst run) = spec_res leaf plan 0%nat (denote0 w)
+  /\ (snd (fst run) <> WUnwind -> map fst (fst (fst run)) = denote0 w).
+Proof.
+  intros w leaf plan run. subst run.
+  destruct (tee_apply_spec leaf (fst (make0 w)) plan 0%nat) as [C [R _]].
+  fold (route0 w) in C, R. rewrite routing0 in C, R.
+  rewrite C, R. repeat split. apply spec_no_unwind.
+Qed.
+
+(** The j-th denoted sink, when no sink before it panics, sees what ITS script does — in particular a
+    healthy sink (empty script) next to failing ones receives the whole record in one [write]. *)
+Lemma spec_calls_nth : forall leaf plan ts k j i,
+  nth_error ts j = Some i ->
+  (forall j', (j' < j)%nat -> snd (leaf (plan (k + j')%nat)) <> WUnwind) ->
+  nth_error (spec_calls leaf plan k ts) j = Some (i, fst (leaf (plan (k + j)%nat))).
+Proof.
+  intros leaf plan ts. induction ts as [|i0 r IH]; intros k j i H NU; [destruct j; discriminate|].
+  destruct j as [|j]; simpl in *.
+  - inversion H; subst. rewrite Nat.add_0_r. reflexivity.
+  - pose proof (NU 0%nat ltac:(lia)) as N0. rewrite Nat.add_0_r in N0.
+    replace (k + S j)%nat with (S k + j)%nat by lia.
+    destruct (snd (leaf (plan k))); try contradiction;
+      (apply IH; [assumption|]; intros j' L; replace (S k + j')%nat with (k + S j')%nat by lia; apply NU; lia).
+Qed.
+
+Lemma no_panic_no_unwind_all : forall s buf, ~ In RsPanic s -> snd (sink_write_all s buf) <> WUnwind.
+Proof.
+  induction s as [|r s IH]; intros buf H; simpl.
+  - destruct buf; discriminate.
+  - destruct buf as [|b0 buf]; [discriminate|].
+    destruct r.
+    + destruct (n =? 0); [discriminate|]. destruct (blen (b0 :: buf) <=? n); [discriminate|].
+      specialize (IH (skipn (N.to_nat n) (b0 :: buf)) ltac:(intros X; apply H; right; exact X)).
+      destruct (sink_write_all s (skipn (N.to_nat n) (b0 :: buf))). exact IH.
+    + specialize (IH (b0 :: buf) ltac:(intros X; apply H; right; exact X)).
+      destruct (sink_write_all s (b0 :: buf)). exact IH.
+    + discriminate.
+    + exfalso. apply H. left. reflexivity.
+Qed.
+
+Theorem healthy_sink_gets_the_whole_record : forall w m buf plan j i,
+  buf <> [] ->
+  nth_error (denote w m) j = Some i ->
+  plan j = [] ->
+  (forall j', ~ In RsPanic (plan j')) ->
+  nth_error (fst (fst (tee_apply true (leaf_of MWriteAll buf) (fst (make_for w m)) plan 0%nat))) j
+  = Some (i, [CWrite buf (RsAccept (blen buf))]).
+Proof.
+  intros w m buf plan j i NE H P NP.
+  destruct (routing_with_faults w m (leaf_of MWriteAll buf) plan) as [C _]. rewrite C.
+  rewrite (spec_calls_nth _ _ _ 0%nat j i H).
+  - simpl. rewrite P. destruct buf; [contradiction | reflexivity].
+  - intros j' _. simpl. apply no_panic_no_unwind_all, NP.
+Qed.
+
+(** ** What one [write_all] looks like from the sink (std's loop), partial writes included *)
+
+(** Every [write] of it is offered a suffix of the record, the first one the whole record ... *)
+Lemma sink_write_all_offers : forall s buf,
+  Forall (fun c => exists pre, buf = pre ++ offered_of c) (fst (sink_write_all s buf))
+  /\ (buf <> [] -> exists r rest, fst (sink_write_all s buf) = CWrite buf r :: rest).
+Proof.
+  induction s as [|r s IH]; intros buf; (destruct buf as [|b0 buf]; [split; [constructor | intros H; exfalso; apply H; reflexivity]|]).
+  - simpl. split; [constructor; [exists []; reflexivity | constructor] | intros _; eauto].
+  - assert (W : exists pre, b0 :: buf = pre ++ b0 :: buf) by (exists []; reflexivity).
+    simpl. destruct r.
+    + destruct (n =? 0); [simpl; split; [constructor; [exact W | constructor] | intros _; eauto]|].
+      destruct (blen (b0 :: buf) <=? n); [simpl; split; [constructor; [exact W | constructor] | intros _; eauto]|].
+      destruct (IH (skipn (N.to_nat n) (b0 :: buf))) as [F _].
+      destruct (sink_write_all s (skipn (N.to_nat n) (b0 :: buf))) as [c res]. simpl in *.
+      split; [|intros _; eauto]. constructor; [exact W|].
+      eapply Forall_impl; [|exact F]. intros a [pre E].
+      exists (firstn (N.to_nat n) (b0 :: buf) ++ pre). rewrite <- app_assoc, <- E. symmetry. apply firstn_skipn.
+    + destruct (IH (b0 :: buf)) as [F _].
+      destruct (sink_write_all s (b0 :: buf)) as [c res]. simpl in *.
+      split; [|intros _; eauto]. constructor; [exact W | exact F].
+    + simpl; split; [constructor; [exact W | constructor] | intros _; eauto].
+    + simpl; split; [constructor; [exact W | constructor] | intros _; eauto].
+Qed.
+
+(** ... and when it returns [Ok] the bytes the sink accepted, call after call, are the record. *)
+Lemma blen_firstn_all : forall (buf : bytes) n, blen buf <= n -> firstn (N.to_nat n) buf = buf.
+Proof. intros buf n H. apply firstn_all2. unfold blen in H. lia. Qed.
+
+Lemma sink_write_all_delivers : forall s buf,
+  snd (sink_write_all s buf) = WOk -> concat (map accepted (fst (sink_write_all s buf))) = buf.
+Proof.
+  induction s as [|r s IH]; intros buf; (destruct buf as [|b0 buf]; [reflexivity|]).
+  - intros _. change (firstn (N.to_nat (blen (b0 :: buf))) (b0 :: buf) ++ [] = b0 :: buf).
+    rewrite app_nil_r. apply blen_firstn_all. lia.
+  - simpl. destruct r.
+    + destruct (n =? 0) eqn:Z; [discriminate|].
+      destruct (blen (b0 :: buf) <=? n) eqn:L.
+      * intros _. simpl. rewrite app_nil_r. apply (blen_firstn_all (b0 :: buf)). apply N.leb_le. exact L.
+      * specialize (IH (skipn (N.to_nat n) (b0 :: buf))).
+        destruct (sink_write_all s (skipn (N.to_nat n) (b0 :: buf))) as [c res]. simpl in *.
+        intros H. rewrite (IH H). apply (firstn_skipn (N.to_nat n) (b0 :: buf)).
+    + specialize (IH (b0 :: buf)). destruct (sink_write_all s (b0 :: buf)) as [c res]. simpl in *. exact IH.
+    + discriminate.
+    + discriminate.
+Qed.
+
+(** ** The tempting one-liner [(a.f(..)?, b.f(..)?)] is a different writer: a failing LEFT sink makes the
+    record disappear from the healthy RIGHT one.  [Tee (Sink 0) (Sink 1)], sink 0's write fails. *)
+Example tee_short_circuit_loses_the_record :
+  let x := fst (make_for (WTee (WSink 0) (WSink 1)) (Meta 3 [] [] false)) in
+  let plan := planf [[RsFail]] in
+  fst (fst (tee_apply true (leaf_of MWriteAll [65; 10]) x plan 0%nat))
+    = [(0, [CWrite [65; 10] RsFail]); (1, [CWrite [65; 10] (RsAccept 2)])]
+  /\ fst (fst (tee_apply false (leaf_of MWriteAll [65; 10]) x plan 0%nat))
+    = [(0, [CWrite [65; 10] RsFail])]
+  /\ snd (fst (tee_apply true (leaf_of MWriteAll [65; 10]) x plan 0%nat)) = WErr.
+Proof. vm_compute. auto. Qed.
+
+(** Non-vacuity of [routing_with_faults]: a depth-3 expression, three denoted sinks, the first
+    accepts 1 byte at a time, the second fails after an interrupted call, the third is healthy. *)
+Example routing_with_faults_example :
+  let w := WTee (WBox (WSink 2)) (WOrElse (WMax 2 (WSink 9)) (WTee (WSink 0) (WSink 1))) in
+  let m := Meta 3 [] [] false in
+  let plan := planf [[RsAccept 1; RsAccept 1]; [RsInterrupted; RsFail]] in
+  denote w m = [2; 0; 1]
+  /\ fst (fst (tee_apply true (leaf_of MWriteAll [65; 66; 10]) (fst (make_for w m)) plan 0%nat))
+     = [(2, [CWrite [65; 66; 10] (RsAccept 1); CWrite [66; 10] (RsAccept 1); CWrite [10] (RsAccept 1)]);
+        (0, [CWrite [65; 66; 10] RsInterrupted; CWrite [65; 66; 10] RsFail]);
+        (1, [CWrite [65; 66; 10] (RsAccept 3)])].
+Proof. vm_compute. auto. Qed.
